@@ -55,7 +55,11 @@ class HplEvent(HplAstObject):
     def simple_events(self) -> Iterator['HplEvent']:
         raise NotImplementedError()
 
-    def type_check_references(self, msg_types: Mapping[str, TypeToken]) -> None:
+    def type_check_references(
+        self,
+        msg_types: Mapping[str, TypeToken],
+        variables: Optional[Mapping[str, TypeToken]] = None,
+    ) -> None:
         raise NotImplementedError()
 
 
@@ -126,9 +130,16 @@ class HplSimpleEvent(HplEvent):
     def simple_events(self) -> Iterator[HplEvent]:
         yield self
 
-    def type_check_references(self, msg_types: Mapping[str, TypeToken]) -> None:
+    def type_check_references(
+        self,
+        msg_types: Mapping[str, TypeToken],
+        variables: Optional[Mapping[str, TypeToken]] = None,
+    ) -> None:
+        # `variables` maps the aliases of earlier events to their message types
         this_msg = msg_types[self.name]
-        self.predicate.type_check_references(this_msg, variables=msg_types)
+        if variables is None:
+            variables = msg_types
+        self.predicate.type_check_references(this_msg, variables=variables)
 
     def __str__(self) -> str:
         alias = (' as ' + self.alias) if self.alias is not None else ''
@@ -187,9 +198,13 @@ class HplEventDisjunction(HplEvent):
         for event in self.event2.simple_events():
             yield event
 
-    def type_check_references(self, msg_types: Mapping[str, TypeToken]) -> None:
-        self.event1.type_check_references(msg_types)
-        self.event2.type_check_references(msg_types)
+    def type_check_references(
+        self,
+        msg_types: Mapping[str, TypeToken],
+        variables: Optional[Mapping[str, TypeToken]] = None,
+    ) -> None:
+        self.event1.type_check_references(msg_types, variables=variables)
+        self.event2.type_check_references(msg_types, variables=variables)
 
     def __str__(self) -> str:
         return f'({" or ".join(str(event) for event in self.simple_events())})'
